@@ -2522,11 +2522,20 @@ func (r *RIB) Flush(networkInstances []string) error {
 			}
 		}
 
+		// A backup NHG can be shared by several NHGs, and is not required to be
+		// installed, so collect the distinct IDs that actually exist.
 		backupNHGs := []uint64{}
+		seenBackup := map[uint64]bool{}
 		for _, nhg := range niR.r.Afts.NextHopGroup {
-			if nhg.BackupNextHopGroup != nil {
-				backupNHGs = append(backupNHGs, *nhg.BackupNextHopGroup)
+			if nhg.BackupNextHopGroup == nil {
+				continue
 			}
+			id := *nhg.BackupNextHopGroup
+			if _, ok := niR.r.Afts.NextHopGroup[id]; !ok || seenBackup[id] {
+				continue
+			}
+			seenBackup[id] = true
+			backupNHGs = append(backupNHGs, id)
 		}
 
 		delNHG := func(id uint64) {
